@@ -51,3 +51,38 @@ CONTRACTS.append(Contract(
              ('no-eos-has-context', 'implies(result[1] is False, result[2] is not None and result[2][0] is not None)'),
              ('eos-is-bool', 'result[1] is True or result[1] is False')],
     raises=PARSE_ERR))
+
+# ---- client side: the result lists of Associators/References/AssociatorNames/ReferenceNames are homogeneous and
+# of the kind the request asked for (instance-level or class-level), whatever the server sent
+OBJ = ('union', ('ref', 'CIMInstance'), ('tuple', ('ref', 'CIMClassName'), ('ref', 'CIMClass')), ('ref', 'CIMClass'))
+NAME = ('union', ('ref', 'CIMInstanceName'), ('ref', 'CIMClassName'))
+
+
+def irv(kind):
+    """the tuple tree of a parsed IRETURNVALUE: [(name, attrs, [ (name, attrs, object), ... ])]"""
+    return Opt(TupleOf(TupleOf(Str, Ref('dict'), ListOf(('tuple', 'str', ('ref', 'dict'), kind)))))
+
+
+REQ = Union(Ref('CIMInstanceName'), Ref('CIMClassName'), Str)
+CONTRACTS.append(Contract(
+    'pywbem/_cim_operations.py::WBEMConnection._get_returned_objects',
+    params={'self': CONN, 'result': irv(OBJ), 'ObjectName': REQ},
+    loops={1: LoopSpec(target='instance', invariant=[('checked-so-far', 'forall(lambda k: isinstance(objects[k], CIMInstance), 0, _i)')]),
+           2: LoopSpec(target='obj', invariant=[('checked-so-far', 'forall(lambda k: isinstance(objects[k], tuple), 0, _i)')])},
+    ensures=[('one-object-per-returned-element', 'len(result) == (0 if old(result) is None else len(old(result)[0][2]))'),
+             ('instance-level-results-are-instances',
+              'implies(isinstance(ObjectName, CIMInstanceName), forall(lambda k: isinstance(result[k], CIMInstance), 0, len(result)))'),
+             ('class-level-results-are-class-tuples',
+              'implies(not isinstance(ObjectName, CIMInstanceName), forall(lambda k: isinstance(result[k], tuple), 0, len(result)))')],
+    raises=PARSE_ERR))
+CONTRACTS.append(Contract(
+    'pywbem/_cim_operations.py::WBEMConnection._get_returned_objectnames',
+    params={'self': CONN, 'result': irv(NAME), 'ObjectName': REQ},
+    loops={1: LoopSpec(target='instancepath', invariant=[('checked-so-far', 'forall(lambda k: isinstance(objects[k], CIMInstanceName), 0, _i)')]),
+           2: LoopSpec(target='classpath', invariant=[('checked-so-far', 'forall(lambda k: isinstance(objects[k], CIMClassName), 0, _i)')])},
+    ensures=[('one-name-per-returned-element', 'len(result) == (0 if old(result) is None else len(old(result)[0][2]))'),
+             ('instance-level-results-are-instance-paths',
+              'implies(isinstance(ObjectName, CIMInstanceName), forall(lambda k: isinstance(result[k], CIMInstanceName), 0, len(result)))'),
+             ('class-level-results-are-class-paths',
+              'implies(not isinstance(ObjectName, CIMInstanceName), forall(lambda k: isinstance(result[k], CIMClassName), 0, len(result)))')],
+    raises=PARSE_ERR))
